@@ -660,6 +660,9 @@ class Evaluator:
         return env
 
     def _run_body(self, body, guard, env):
+        # RTLIL semantics of a case body (and of a process root): its assignments ("actions") take effect first, then its
+        # switches, whatever their order in the text -- the Yosys front end files them into two separate lists
+        body = [st for st in body if st[0] == "assign"] + [st for st in body if st[0] != "assign"]
         for st in body:
             if st[0] == "assign":
                 bits = self.d._lhs_bits(st[1])
